@@ -1,0 +1,11 @@
+//go:build !verif
+
+package vamana
+
+// No-ops without the verif tag.
+func verifSawChange(IndexVectorChange) {}
+
+func (v *IndexVamana) verifClassified([]IndexVectorChange, []uint64, map[uint64]struct{}, map[uint64]struct{}) {
+}
+
+func verifEdgeScan([]uint64, []uint64) {}
